@@ -5,5 +5,32 @@ PROP = "C18"
 THEOREMS = ["C18_join_events_exact", "C18_join_refused_no_event", "C18_leave_events_exact", "C18_replay_join_step", "C18_replay_leave_step", "C18_failed_leave_notification"]
 
 
+import serverlib as sl
+
+
+def classify(tag, what, case, ob, t):
+    return "K18a" if what.startswith("K18a ") else None
+
+
+def failing_notification_histories(r, thorough):
+    """witness of K18a: the modulator's event forwarding fails during a LEAVE"""
+    cases = []
+    for _ in range(3):
+        cfg = sl.base_cfg(r, {"ops": ["fwd-event"], "proto": "P/1"})
+        cfg.update({"max_clients": 10, "max_subs": 10, "max_conns": 16})
+        ops = []
+        for k, u in ((1, "alice"), (2, "bob"), (3, "carol")):
+            ops.append({"t": "open", "k": k})
+            ops.append({"t": "send", "k": k, "bytes": sl.frame("CONNECT", [("version", 1), ("heartbeat_interval", 0)]).hex(), "script": []})
+            ops.append({"t": "send", "k": k, "bytes": sl.frame("IDENTIFY", [("username", u)]).hex(), "script": []})
+            ops.append({"t": "send", "k": k, "bytes": sl.frame("JOIN", [("id", 10 + k), ("channel", "!c1@localhost")]).hex(), "script": []})
+        ops.append({"t": "send", "k": 2, "bytes": sl.frame("LEAVE", [("id", 20), ("channel", "!c1@localhost")]).hex(), "script": ["ok"]})
+        ops.append({"t": "send", "k": 2, "bytes": sl.frame("JOIN", [("id", 21), ("channel", "!c1@localhost")]).hex(), "script": ["ok"]})
+        ops.append({"t": "hangup", "k": 2, "script": ["err", "err", "err", "err"]})
+        ops.append({"t": "send", "k": 1, "bytes": sl.frame("MEMBERS", [("id", 30), ("channel", "!c1@localhost")]).hex(), "script": []})
+        cases.append({"cfg": cfg, "ops": ops})
+    return cases
+
+
 def run(tier, replay=None):
-    return srvprops.run(PROP, THEOREMS, tier, replay)
+    return srvprops.run(PROP, THEOREMS, tier, replay, extra_gen=failing_notification_histories, known_classifier=classify)
